@@ -576,7 +576,7 @@ def _b1(chk: Check, consts, label, sample_every, max_pairs=0):
     if len(ids) != len(g.edges):
         raise MachineryError("unreachable edges in the export")
     all_pairs = len(g.merge_pairs(10 ** 9))
-    pairs = g.merge_pairs(max_pairs or (6000 if chk.tier == "quick" else 80000))
+    pairs = g.merge_pairs(max_pairs or (6000 if chk.tier == "quick" else 40000))
     chk.cov["b1_merge_pairs_replayed"] = chk.cov.get("b1_merge_pairs_replayed", 0) + len(pairs)
     ids = ids + pairs
     # interleave so that chunks have similar cost
@@ -836,7 +836,7 @@ def run(chk: Check):
     traces = []
     # receive-heavy, depth bounded
     traces += _b1(chk, dict(base, RelPids="{1,2}", UnrelPids="{3}", MaxRcv=2, MaxSends=2, MaxUnrel=1,
-                            Depth=5 if quick else 6), "recv", 97 if quick else 97, max_pairs=20000 if quick else 200000)
+                            Depth=5 if quick else 6), "recv", 97 if quick else 97, max_pairs=20000 if quick else 60000)
     # timer-heavy, unbounded depth: budget exhaustion, retransmission counts
     traces += _b1(chk, dict(base, RelPids="{}", UnrelPids="{1}", MaxRcv=1, MaxSends=2, MaxUnrel=0, MaxAcks=1, Depth=0),
                   "timer", 17 if quick else 7, max_pairs=15000 if quick else 0)
